@@ -221,9 +221,22 @@ fn scale_phase(prop: &str, cfgs: Vec<Cfg>, o: Oracles, thorough: bool) -> Phase 
         vec!["append_bulk40", "purge_mid"],
         vec!["append_bulk130", "append_bulk130"],
         vec!["append_bulk130", "append_bulk130", "flush"],
+        vec!["append_bulk130", "append_bulk130", "append_bulk130"],
         vec!["append_bulk40", "append_bulk40", "append_bulk40", "purge_mid", "flush"],
     ];
     Phase { name: "scale: bulk appends of 40 / 130 entries (dozens of rotations and chunk removals, caches above a hundred entries)", spec: s }
+}
+
+/// The journal starts just below a power-of-two offset and crosses it within
+/// the first records (2^16, 2^32, 2^40): offsets narrower than u64 would wrap.
+fn high_offset_phase(prop: &str, o: Oracles, thorough: bool) -> Phase {
+    let cfgs = vec![
+        Cfg::records(3).starting_at((1u64 << 32) - 40),
+        Cfg::records(2).starting_at((1u64 << 16) - 30),
+        Cfg::records(3).starting_at((1u64 << 40) - 70),
+    ];
+    let s = spec(prop, Alpha::Core, if thorough { 4 } else { 3 }, cfgs, o, if thorough { 900 } else { 30 });
+    Phase { name: "journal starting just below offsets 2^16, 2^32, 2^40 (crossed within the first records)", spec: s }
 }
 
 /// both chunk limits set; with the harness's record sizes sometimes the size
@@ -277,7 +290,8 @@ pub fn seq_phases(prop: &str, tier: &str) -> Vec<Phase> {
                         },
                     },
                     periodic_phase(prop, vec![Cfg::records(2), Cfg::records(3)], o.clone(), thorough),
-                    scale_phase(prop, vec![Cfg::records(2), Cfg::records(200).with_cache(Some(2), None)], o.clone(), thorough),
+                    scale_phase(prop, vec![Cfg::records(2), Cfg::records(300).with_cache(Some(2), None)], o.clone(), thorough),
+                    high_offset_phase(prop, o.clone(), thorough),
                 ]
             } else {
                 vec![
@@ -298,7 +312,8 @@ pub fn seq_phases(prop: &str, tier: &str) -> Vec<Phase> {
                         },
                     },
                     periodic_phase(prop, vec![Cfg::records(2), Cfg::records(3)], o.clone(), thorough),
-                    scale_phase(prop, vec![Cfg::records(2), Cfg::records(200).with_cache(Some(2), None)], o.clone(), thorough),
+                    scale_phase(prop, vec![Cfg::records(2), Cfg::records(300).with_cache(Some(2), None)], o.clone(), thorough),
+                    high_offset_phase(prop, o.clone(), thorough),
                 ]
             }
         }
@@ -330,7 +345,7 @@ pub fn seq_phases(prop: &str, tier: &str) -> Vec<Phase> {
                 Phase { name: "tiny alphabet + restarts, deeper", spec: t },
                 p,
                 {
-                    let mut sc = scale_phase(prop, vec![Cfg::records(2), Cfg::records(200).with_cache(Some(2), None)], Oracles { semantics: true, restart_epilogue: true, ..Default::default() }, thorough);
+                    let mut sc = scale_phase(prop, vec![Cfg::records(2), Cfg::records(300).with_cache(Some(2), None)], Oracles { semantics: true, restart_epilogue: true, ..Default::default() }, thorough);
                     sc.spec.reopen_cfgs = reopen_cfgs[..2].to_vec();
                     sc.spec.max_reopens = 1;
                     sc
@@ -419,7 +434,8 @@ pub fn seq_phases(prop: &str, tier: &str) -> Vec<Phase> {
                         },
                     },
                     periodic_phase(prop, vec![Cfg::records(2), Cfg::records(3), Cfg::size(100)], o.clone(), thorough),
-                    scale_phase(prop, vec![Cfg::records(1), Cfg::records(200)], o.clone(), thorough),
+                    scale_phase(prop, vec![Cfg::records(1), Cfg::records(300)], o.clone(), thorough),
+                    high_offset_phase(prop, o.clone(), thorough),
                 ]
             } else {
                 vec![
@@ -437,7 +453,8 @@ pub fn seq_phases(prop: &str, tier: &str) -> Vec<Phase> {
                         },
                     },
                     periodic_phase(prop, vec![Cfg::records(2), Cfg::records(3), Cfg::size(100)], o.clone(), thorough),
-                    scale_phase(prop, vec![Cfg::records(1), Cfg::records(200)], o.clone(), thorough),
+                    scale_phase(prop, vec![Cfg::records(1), Cfg::records(300)], o.clone(), thorough),
+                    high_offset_phase(prop, o.clone(), thorough),
                 ]
             }
         }
@@ -475,7 +492,7 @@ pub fn seq_phases(prop: &str, tier: &str) -> Vec<Phase> {
                 Phase { name: "the same start states, evictable entries drained after every operation", spec: d },
                 Phase { name: "core alphabet, drained after every operation", spec: d0 },
                 periodic_phase(prop, vec![Cfg::records(3).with_cache(Some(0), None), Cfg::records(2).with_cache(Some(2), Some(5))], Oracles { cache: true, drain_each: true, ..Default::default() }, thorough),
-                scale_phase(prop, vec![Cfg::records(200).with_cache(Some(2), None), Cfg::records(50).with_cache(Some(0), None), Cfg::records(200).with_cache(None, Some(100))], Oracles { cache: true, ..Default::default() }, thorough),
+                scale_phase(prop, vec![Cfg::records(300).with_cache(Some(2), None), Cfg::records(50).with_cache(Some(0), None), Cfg::records(200).with_cache(None, Some(100))], Oracles { cache: true, ..Default::default() }, thorough),
             ]
         }
         "C16" => {
